@@ -20,7 +20,7 @@ REASONS = {111: "failure-not-reported-to-master-with-original-identity", 112: "c
            113: "run-did-not-return", 114: "master-continued-ticking-after-failure", 115: "stop-set-differs-from-model"}
 
 
-def run_failing(cfg, devs, device, n, t_end=2_000_000_003, kind="device"):
+def run_failing(cfg, devs, device, n, t_end=2_000_000_003, kind="device", bus=None):
     import tickit.core.management.schedulers.master as mm
     import tickit.core.management.ticker as tk
     from tickit.core.adapter import AdapterContainer
@@ -64,7 +64,16 @@ def run_failing(cfg, devs, device, n, t_end=2_000_000_003, kind="device"):
         if kind == "hook":
             ad[device] = failing_adapters
         configs = slevel.build_configs(cfg, devs, 1, {device: n} if kind == "device" else {}, ad)
-        sched = mm.MasterScheduler(InverseWiring.from_component_configs(configs), *slevel_get_interface())
+        backend = "internal"
+        if bus is not None:
+            # a conforming broker-like backend (harness/cbus.py) registered next to the shipped ones
+            import cbus
+            from tickit.core.state_interfaces import state_interface as si
+            cons, prod = cbus.make_interface(bus)
+            si.consumers["cbus"], si.producers["cbus"] = (cons, False), (prod, False)
+            backend = "cbus"
+        from tickit.core.state_interfaces.state_interface import get_interface
+        sched = mm.MasterScheduler(InverseWiring.from_component_configs(configs), *get_interface(backend))
         comps = {c.name: c() for c in configs}
         # observe stop_component of every component class and the master's exception handler
         orig_hce = mm.MasterScheduler.handle_component_exception
@@ -99,7 +108,7 @@ def run_failing(cfg, devs, device, n, t_end=2_000_000_003, kind="device"):
         tk.Ticker.__call__ = logged_call
         dcm.DeviceComponent.stop_component, scm.SystemComponent.stop_component = dstop, sstop
         try:
-            sim = TickitSimulation("internal", sched, comps)
+            sim = TickitSimulation(backend, sched, comps)
             run = asyncio.create_task(sim.run())
             done, _ = await asyncio.wait([run], timeout=t_end / 1e9)
             obs["returned"] = bool(done)
@@ -119,6 +128,11 @@ def run_failing(cfg, devs, device, n, t_end=2_000_000_003, kind="device"):
     except Exception as e:  # noqa
         obs["error"] = repr(e)
     obs["n_updates_of_device"] = sum(1 for (c, _, _) in slevel.TRACE if c == device)
+    if bus is not None:
+        from tickit.core.state_interfaces import state_interface as si
+        si.consumers.pop("cbus", None)
+        si.producers.pop("cbus", None)
+        obs["bus_errors"] = list(bus.errors)[:3]
     return obs
 
 
@@ -169,6 +183,14 @@ def main(tier, seed):
                         continue    # the device is not updated that often in this run: no failure happened
                     cases.append(dict(cfg=cfg, devs=devs, device=d, n=n, kind=kind, obs=obs))
                     terms.append(render(cfg, d, obs))
+                    if tier == "thorough" or (d + n) % 3 == 0:
+                        # the same failure point under delayed, reordered message delivery
+                        from props import c08
+                        pol, bseed = rng.choice(c08.POLICIES), rng.randrange(10 ** 6)
+                        obs2 = run_failing(cfg, devs, d, n, kind=kind, bus=c08.make_bus(pol, bseed, cfg))
+                        if obs2["n_updates_of_device"] >= n:
+                            cases.append(dict(cfg=cfg, devs=devs, device=d, n=n, kind=kind, obs=obs2, schedule=[pol, bseed]))
+                            terms.append(render(cfg, d, obs2))
     bad = run_shards(PID, HEADER, "fs_case", "check_fs", terms, shard_size=60)
     for c in cases:
         ck.count(json.dumps([sprops.describe(dict(c, speed=(1, 1), initial=0, stim=[])), c["device"], c["n"], c["kind"]]),
@@ -176,7 +198,7 @@ def main(tier, seed):
     ck.rule = ("every (device, n-th update) failure point -- in the device's update and in an adapter's after_update hook -- with n <= %d on flat / nested / doubly nested configurations with sibling "
                "systems and on random nested configurations, run through TickitSimulation.run(); every device carries a blocking "
                "adapter task; non-trivial = failure inside a system simulation or after the initial tick" % nmax)
-    ck.coverage.update(failure_points=len(cases), disagreements=len(bad),
+    ck.coverage.update(failure_points=len(cases), disagreements=len(bad), under_delayed_delivery=sum(1 for c in cases if c.get("schedule")),
                        nested_failures=sum(1 for c in cases if slevel.path_of(c["cfg"], c["device"])[1]),
                        initial_tick_failures=sum(1 for c in cases if c["n"] == 1))
     ck.sample(dict(device=cases[-1]["device"], n=cases[-1]["n"], observed=cases[-1]["obs"]))
@@ -189,7 +211,7 @@ def main(tier, seed):
                 continue
             done.add((code, nested))
             d = sprops.describe(dict(c, speed=(1, 1), initial=0, stim=[]))
-            d.update(device=c["device"], n=c["n"], fail_kind=c["kind"], observed=c["obs"], codes=bad[i])
+            d.update(device=c["device"], n=c["n"], fail_kind=c["kind"], observed=c["obs"], codes=bad[i], schedule=c.get("schedule"))
             ck.report(REASONS[code] + ("-failure-inside-system" if nested else "-failure-at-top-level"),
                       f"device c{c['device']} ({c['kind']}) fails at its update {c['n']}: {REASONS[code]}", d)
     return ck.finish()
@@ -199,7 +221,11 @@ def replay(rp):
     cfg = {int(k): dict(order=[(c, (k2 if k2 == "dev" else int(k2))) for c, k2 in v["order"]],
                         conns=[tuple(x) for x in v["conns"]]) for k, v in rp["cfg"].items()}
     devs = {int(k): tuple(v) for k, v in rp["devs"].items()}
-    obs = run_failing(cfg, devs, rp["device"], rp["n"], kind=rp.get("fail_kind", "device"))
+    bus = None
+    if rp.get("schedule"):
+        from props import c08
+        bus = c08.make_bus(rp["schedule"][0], rp["schedule"][1], cfg)
+    obs = run_failing(cfg, devs, rp["device"], rp["n"], kind=rp.get("fail_kind", "device"), bus=bus)
     bad = run_shards("replay", HEADER, "fs_case", "check_fs", [render(cfg, rp["device"], obs)])
     print("observed:", obs)
     print("codes:", bad.get(0, []), [REASONS[c] for c in bad.get(0, [])])
